@@ -5,3 +5,6 @@
 pub(crate) mod sym;
 pub(crate) mod l1_kernels;
 pub(crate) mod l1_dec_prim;
+pub(crate) mod l1_dec_pkt;
+pub(crate) mod refdec;
+pub(crate) mod l1_enc;
